@@ -49,8 +49,8 @@ PROPS = {
         "text": "bytes_len = encoded length (proved); returned counts compared with bytes written",
     },
     "C07": {
-        "lean": ["PnaVerif.Props.Consts", "PnaVerif.Props.C07", "PnaVerif.Props.C07Solid"],
-        "families": ["parse", "entry", "codec", "truncate", "foreign", "hostile-solid", "cli-hostile", "cli-tree", "cli-truncate"],
+        "lean": ["PnaVerif.Props.Consts", "PnaVerif.Props.C07", "PnaVerif.Props.C07Solid", "PnaVerif.Props.C11Append"],
+        "families": ["parse", "entry", "codec", "truncate", "foreign", "hostile-solid", "cli-hostile", "cli-tree", "cli-truncate", "append-bytes"],
         "cli": True,
         "trusted": COMMON_TRUST,
         "text": "no model read path reaches a panic outcome (proved for all inputs); hostile/mutated/truncated streams through the real readers under catch_unwind",
@@ -112,8 +112,8 @@ PROPS = {
         "text": "row production / solid omission / selection theorems; plain and tree output compared byte for byte with the model, jsonl field-wise, long row-wise; extract with the same patterns compared with the listed set",
     },
     "C11": {
-        "lean": ["PnaVerif.Props.Consts", "PnaVerif.Props.C11"],
-        "families": ["history", "fault"],
+        "lean": ["PnaVerif.Props.Consts", "PnaVerif.Props.C11", "PnaVerif.Props.C11Append"],
+        "families": ["history", "fault", "append-bytes"],
         "cli": True,
         "trusted": COMMON_TRUST + ["ignore's walker (which paths exist, in which order) enters as an oracle answer via the collect_items hook", "file mtimes compared as the kernel reports them"],
         "text": "append/update/delete specifications and the history invariant proved over ordered entry lists; real pna histories on an evolving tree compared with the model after every step",
